@@ -91,14 +91,33 @@ def schemas(quick):
                     ((exists AllDocs or (.name != 'MK_Folder') ?? false)); }
       type Shelf { name: str; access policy p allow select using
                    ((exists (global some_doc) or (.name != 'MK_Shelf') ?? false)); }
+      # non-object views over the protected type
+      global doc_total := count(Doc);
+      global doc_names := array_agg(Doc.name);
+      alias DocNames := Doc.name;
+      alias DocPairs := (Doc.name, Doc.secret);
+      type Counted { name: str; n: int64; access policy p allow select using
+                     (((.n ?? 0) < global doc_total or (.name != 'MK_Counted')
+                       ?? false)); }
+      type Listed { name: str; access policy p allow select using
+                    ((((.name ?? '') in DocNames) or (.name != 'MK_Listed')
+                      ?? false)); }
+      type Paired { name: str; access policy p allow select using
+                    ((((.name ?? '') in DocPairs.0) or ((.name ?? '') in array_unpack(
+                       global doc_names)) or (.name != 'MK_Paired')
+                      ?? false)); }
     ''' % pol
     out['policy-reads-protected'] = (
         # Folder's and Shelf's policy conditions read Doc (policies are
         # evaluated with policies off), so a CTE carrying their marker may
         # legitimately contain a raw read of Doc
-        sdl, {'default::Doc': {'MK_Doc', 'MK_Folder', 'MK_Shelf'},
+        sdl, {'default::Doc': {'MK_Doc', 'MK_Folder', 'MK_Shelf',
+                               'MK_Counted', 'MK_Listed', 'MK_Paired'},
               'default::Folder': {'MK_Folder'},
-              'default::Shelf': {'MK_Shelf'}})
+              'default::Shelf': {'MK_Shelf'},
+              'default::Counted': {'MK_Counted'},
+              'default::Listed': {'MK_Listed'},
+              'default::Paired': {'MK_Paired'}})
     return out
 
 
@@ -165,6 +184,22 @@ QUERIES = {
         'select AllDocs.secret', 'select (count(Doc), count(Folder))',
         'with f := count(Folder) select (f, AllDocs.name)',
         'select (exists Folder, exists AllDocs, exists Shelf)',
+        'select global doc_total', 'select DocNames', 'select DocPairs',
+        'select global doc_names', 'select Counted', 'select Listed',
+        'select Paired',
+        'select (count(Counted), global doc_total)',
+        'select (global doc_total, count(Counted))',
+        'select (count(Listed), count(DocNames))',
+        'select (count(DocNames), count(Listed))',
+        'select (count(Paired), DocPairs.1)',
+        'select (DocPairs.1, count(Paired))',
+        'select (count(Paired), global doc_names)',
+        'select (global doc_names, count(Paired))',
+        'select Counted { t := global doc_total }',
+        'select Listed { ns := DocNames }',
+        'with c := count(Counted) select (c, global doc_total)',
+        'select (exists Counted, global doc_total, exists Listed, DocNames)',
+        'for c in Counted union (c.name, global doc_total)',
     ],
 }
 
